@@ -33,8 +33,16 @@ func (f *Frame) panicSite(cond, kind, desc, pos string) {
 	s := f.s
 	// recover scope?
 	for fr := f; fr != nil; fr = fr.parent {
-		if fr.recoverSc {
+		if fr.inRecoverScope() {
 			fr.panicEdge = append(fr.panicEdge, and(f.cur.reach, cond))
+			h := f.cur.heap.clone()
+			for _, k := range f.pendingDirty {
+				h[k] = "<dirty>"
+			}
+			if f != fr {
+				// inside an inlined callee: its local view of the heap is the relevant one; keys are global anyway
+			}
+			fr.panicHeap = append(fr.panicHeap, h)
 			f.cur.reach = f.andReach(f.cur.reach, not(cond))
 			return
 		}
@@ -167,6 +175,11 @@ func (f *Frame) instr(ins ssa.Instruction) {
 		f.vals[x] = S{app("mk-slice", ref, "0", n, c), x.Type()}
 	case *ssa.MakeMap:
 		f.vals[x] = f.makeMap(x.Type())
+	case *ssa.MakeChan:
+		ref := f.newRef()
+		f.s.freshRefs[ref] = true
+		f.s.assume("channels: only allocation is modelled in functions that merely create one; sends/receives are checked where they occur")
+		f.vals[x] = S{ref, x.Type()}
 	case *ssa.MapUpdate:
 		f.mapUpdate(x)
 	case *ssa.Lookup:
